@@ -169,6 +169,9 @@ def report(mod, prop, tier, seed, units, results, extra, t0, origin, args):
     violations = []
     known_hits = []
     rdir = os.path.join(HERE, "replays", prop)
+    if os.path.isdir(rdir) and not args.unit:
+        for fn in os.listdir(rdir):
+            os.unlink(os.path.join(rdir, fn))
     seen = set()
     for ob in failed:
         key = (ob["name"], json.dumps(ob.get("model"), sort_keys=True, default=str))
